@@ -76,6 +76,8 @@ enum FuncKind {
     },
     TaskBlock {
         task_block: Rc<Expr>,
+        capture_types: Vec<SolvedType>,
+        capture_types_concrete: Vec<SolvedType>,
     },
     IntrinsicWrapper(IntrinsicOperation, AstNode),
     ForeignFunctionWrapper {
@@ -443,21 +445,21 @@ impl Translator {
                         }
                         FuncKind::TaskBlock {
                             task_block: e,
-                            // capture_types,
-                            // capture_types_concrete,
+                            capture_types,
+                            capture_types_concrete,
                         } => {
                             let ExprKind::TaskBlock(body) = &*e.kind else { unreachable!() };
 
                             let out_ty = self.statics.solution_of_node(e.node()).unwrap();
                             let func_ty = SolvedType::Function(vec![], out_ty.into());
                             let mono_for_lambda = MonomorphEnv::empty();
-                            // if capture_types.iter().any(|ty| ty.is_overloaded()) {
-                            //     for (overloaded_ty, ty_concrete) in
-                            //         capture_types.iter().zip(capture_types_concrete.iter())
-                            //     {
-                            //         mono_for_lambda.update(overloaded_ty, ty_concrete);
-                            //     }
-                            // }
+                            if capture_types.iter().any(|ty| ty.is_overloaded()) {
+                                for (overloaded_ty, ty_concrete) in
+                                    capture_types.iter().zip(capture_types_concrete.iter())
+                                {
+                                    mono_for_lambda.update(overloaded_ty, ty_concrete);
+                                }
+                            }
                             self.translate_func_body_helper(
                                 st,
                                 mono_for_lambda,
@@ -1180,6 +1182,16 @@ impl Translator {
                 let desc = FuncDesc {
                     kind: FuncKind::TaskBlock {
                         task_block: expr.clone(),
+                        capture_types: captures
+                            .iter()
+                            .cloned()
+                            .map(|capture| self.statics.solution_of_node(capture).unwrap())
+                            .collect(),
+                        capture_types_concrete: captures
+                            .iter()
+                            .cloned()
+                            .map(|capture| self.get_ty(mono, capture).unwrap())
+                            .collect(),
                     },
                     overload_ty: overload_ty.clone(),
                 };
@@ -2784,15 +2796,20 @@ impl Translator {
             std::collections::hash_map::Entry::Vacant(v) => {
                 st.funcs_to_generate.push(desc.clone());
                 let label = match &desc.overload_ty {
-                    // a lambda whose own type is not generic but which captures values of a
-                    // generic type is compiled once per instantiation of those captures
-                    None if matches!(&desc.kind, FuncKind::AnonymousFunc { capture_types, .. }
+                    // a lambda or task whose own type is not generic but which captures values of
+                    // a generic type is compiled once per instantiation of those captures
+                    None if matches!(&desc.kind,
+                        FuncKind::AnonymousFunc { capture_types, .. } | FuncKind::TaskBlock { capture_types, .. }
                         if capture_types.iter().any(|ty| ty.is_overloaded())) =>
                     {
-                        let FuncKind::AnonymousFunc {
+                        let (FuncKind::AnonymousFunc {
                             capture_types_concrete,
                             ..
-                        } = &desc.kind
+                        }
+                        | FuncKind::TaskBlock {
+                            capture_types_concrete,
+                            ..
+                        }) = &desc.kind
                         else {
                             unreachable!()
                         };
